@@ -190,6 +190,9 @@ def header_classes(src: str) -> Dict[str, int]:
     out = {}
     for m in re.finditer(r"(template\s*<([^>]*)>\s*)?class\s+(\w+)\s*\{", src):
         out[m.group(3)] = len([p for p in m.group(2).split(",") if p.strip()]) if m.group(1) else 0
+    # alias templates / aliases: `template<...> using Name = ...;`
+    for m in re.finditer(r"(template\s*<([^>]*)>\s*)?using\s+(\w+)\s*=", src):
+        out.setdefault(m.group(3), len([p for p in m.group(2).split(",") if p.strip()]) if m.group(1) else 0)
     return out
 
 
